@@ -7,7 +7,7 @@ from ..buscheck import fld, hexname
 MODULE = "Dbus.Props.C04"
 THEOREMS = ["requestName_queue", "requestName_reply", "requestName_signals", "releaseName_queue_and_reply",
             "releaseName_signals", "disconnect_queue", "disconnect_signals", "queue_jump_same_primary", "f15_witness",
-            "queues_well_formed", "looked_up_queue_ok", "reserved_names_not_requestable", "reserved_names_not_releasable",
+            "queues_well_formed", "queues_well_formed_with_activation_and_time", "looked_up_queue_ok", "reserved_names_not_requestable", "reserved_names_not_releasable",
             "refused_request_changes_nothing", "reply_after_signals", "getNameOwner_reports_primary",
             "listQueuedOwners_reports_queue", "nameHasOwner_reports_registry"]
 BUS = "org.freedesktop.DBus"
